@@ -38,10 +38,11 @@ for sid in ids:
     mp = "%s/seeded/%s/meta.json" % (V, sid)
     meta = json.load(open(mp))
     meta["caught_by"] = fired
-    meta["caught_by_own_property_check"] = fired.get(sid, {}).get("exit") == 1
+    prop = meta.get("property", sid)
+    meta["caught_by_own_property_check"] = fired.get(prop, {}).get("exit") == 1
     json.dump(meta, open(mp, "w"), indent=1)
-    own = "yes" if meta["caught_by_own_property_check"] else ("exit 2" if fired.get(sid, {}).get("exit") == 2 else "no")
-    others = ", ".join("%s%s" % (k, "" if v["exit"] == 1 else " (exit 2)") for k, v in sorted(fired.items()) if k != sid) or "-"
+    own = "yes" if meta["caught_by_own_property_check"] else ("exit 2" if fired.get(prop, {}).get("exit") == 2 else "no")
+    others = ", ".join("%s%s" % (k, "" if v["exit"] == 1 else " (exit 2)") for k, v in sorted(fired.items()) if k != prop) or "-"
     rules = sorted({k.split("|")[0] for v in fired.values() for k in v["violations"]})
     rows.append((sid, ", ".join(meta["files_changed"]), own, others, ", ".join(rules) or ("MISSED: " + meta.get("missed", "")[:150] + "...")))
     print(sid, "own=%s" % own, "others=%s" % others, rules)
